@@ -93,6 +93,12 @@ Definition forall_blocks (c : acase) (f : snapshot → blk → bool) : bool :=
 Definition native (prev_code : bool) (t : tx) : bool :=
   negb (t_type t =? TRX_CONTRACT) && negb ((t_type t =? TRX_TRANSFER) && prev_code).
 
+(* ------------------------------------------------------------------ C03: only correctly signed transactions take effect *)
+(* [t_sigok] is the harness's knowledge of how the bytes were produced: signed by From's key, for the
+   node's chain id, and not altered afterwards (nor carrying another transaction's signature) *)
+Definition P_C03 (c : acase) : bool :=
+  forall_blocks c (λ _ b, forallb (λ x : tx * res Z, negb (succeeded x) || t_sigok x.1) (k_txs b)).
+
 (* ------------------------------------------------------------------ C04: nonces *)
 (* within a block, the k-th successful transaction of a sender carries nonce = committed nonce + k,
    and the committed nonce moves by the number of successes; failed ones move nothing *)
